@@ -179,6 +179,32 @@ func C18(c *Ctx) {
 			}))
 			nIncl += c.behindEdges("R18.2", "generateBlock", f, es, isInclude, "predecessor batched or nonce == commit nonce", "inclusion into the batch")
 
+			// pairing: every key appended to the batch is marked in batchedTxs on every path
+			for _, ap := range sites(f, appendsWhere(func(dst ssa.Value) bool { return strings.Contains(dst.Type().String(), "orderedIndexKey") })) {
+				call := ap.(*ssa.Call)
+				// the appended element(s): the variadic slice's stored values
+				var keys []ssa.Value
+				core.Mentions(call.Call.Args[1], func(v ssa.Value) bool {
+					if al, ok := v.(*ssa.Alloc); ok {
+						keys = append(keys, core.StoresInto(al)...)
+					}
+					return false
+				})
+				marked := false
+				for _, k := range keys {
+					isMark := func(in ssa.Instruction) bool {
+						mu, ok := in.(*ssa.MapUpdate)
+						return ok && isBatched(mu.Map) && sameValue(mu.Key, k)
+					}
+					isThis := func(in ssa.Instruction) bool { return in == ap }
+					if len(sites(f, isMark)) > 0 && (precedesAll(f, isMark, isThis) || followsAll(f, isThis, isMark, false)) {
+						marked = true
+					}
+				}
+				r.Check(marked, "R18.2", "generateBlock: appended key is marked as batched", c.P.Pos(ap.Pos()), "batchedTxs[key] = true on every path that appends key to the batch",
+					"a transaction can be appended to the batch without being recorded in batchedTxs (e.g. when the batch becomes full on it): the next batch includes the same (account, nonce) again")
+			}
+
 			// R18.3: after each append to result, the size test precedes the next append
 			appends := sites(f, appendsWhere(func(dst ssa.Value) bool { return strings.Contains(dst.Type().String(), "orderedIndexKey") }))
 			for _, ap := range appends {
